@@ -74,16 +74,16 @@ def known_findings(pid):
     known_findings.json is the merged, committed list; known_findings/Cnn.json
     fragments (same entry format, a JSON list) are merged in by id."""
     ents, seen = [], set()
+    for fp in sorted(glob.glob(os.path.join(VERIF, "known_findings", "*.json"))):
+        with open(fp) as f:
+            for e in json.load(f):
+                if e["id"] not in seen:
+                    seen.add(e["id"])
+                    ents.append(e)
     p = os.path.join(VERIF, "known_findings.json")
     if os.path.exists(p):
         with open(p) as f:
             for e in json.load(f).get("findings", []):
-                if e["id"] not in seen:
-                    seen.add(e["id"])
-                    ents.append(e)
-    for fp in sorted(glob.glob(os.path.join(VERIF, "known_findings", "*.json"))):
-        with open(fp) as f:
-            for e in json.load(f):
                 if e["id"] not in seen:
                     seen.add(e["id"])
                     ents.append(e)
